@@ -197,7 +197,15 @@ static void lens_for_case(rng_t *r, const fam_t *f, uint64_t sub, size_t maxlen,
 }
 
 static const char *fam_filter = 0;   /* property id: only families of that property */
-static int fam_on(const fam_t *f) { return !fam_filter || !strcmp(fam_filter, f->prop); }
+static const char *prop_override = 0;
+static int fam_on(const fam_t *f)
+{
+    if (!fam_filter) return 1;
+    if (!strcmp(fam_filter, "C07")) return f->kind == K_INC;   /* chunking / in-place invariance of the incremental AEAD */
+    return !strcmp(fam_filter, f->prop);
+}
+#define FPROP(f) (prop_override ? prop_override : (f)->prop)
+#define DPROP (prop_override ? prop_override : "C02")
 
 static void case_enc(rng_t *r, uint64_t idx, int thorough)
 {
@@ -218,12 +226,12 @@ static void case_enc(rng_t *r, uint64_t idx, int thorough)
     f->enc(v.c, &clen, v.m, mlen, v.ad, adlen, v.n, v.k);
     vf_out(v.c, mlen + 16); vf_out_int((long)clen);
     snprintf(key, sizeof(key), "enc:%s:ciphertext", f->name);
-    vf_eq(f->prop, key, "ciphertext||tag", v.c, exp, mlen + 16,
+    vf_eq(FPROP(f), key, "ciphertext||tag", v.c, exp, mlen + 16,
           "\"alg\":\"%s\",\"adlen\":%zu,\"mlen\":%zu,\"key\":\"%s\",\"nonce\":\"%s\",\"ad\":\"%s\",\"m\":\"%s\"",
           f->name, adlen, mlen, vf_h(v.k, f->klen), vf_h(v.n, 16), vf_h(v.ad, adlen), vf_h(v.m, mlen));
     if (clen != mlen + 16) {
         snprintf(key, sizeof(key), "enc:%s:clen", f->name);
-        vf_violation(f->prop, key, "\"alg\":\"%s\",\"mlen\":%zu,\"clen\":%zu", f->name, mlen, clen);
+        vf_violation(FPROP(f), key, "\"alg\":\"%s\",\"mlen\":%zu,\"clen\":%zu", f->name, mlen, clen);
     }
     if (adlen || mlen)
         vf_distinct("enc|%s|ad%s|m%s|k%s|n%s", f->name, len_class(adlen, f->rate, c1), len_class(mlen, f->rate, c2),
@@ -317,27 +325,27 @@ static void dec_expect(const fam_t *f, const char *mut, int want_ok, const uint8
     if (want_ok) {
         if (res < 0) {
             snprintf(key, sizeof(key), "dec:%s:valid-rejected", f->name);
-            vf_violation("C02", key, "\"alg\":\"%s\",\"clen\":%zu,\"adlen\":%zu,\"res\":%d", f->name, clen, adlen, res);
+            vf_violation(DPROP, key, "\"alg\":\"%s\",\"clen\":%zu,\"adlen\":%zu,\"res\":%d", f->name, clen, adlen, res);
         } else {
             snprintf(key, sizeof(key), "dec:%s:plaintext", f->name);
-            vf_eq("C02", key, "decrypted plaintext", m, m_orig, mcap, "\"alg\":\"%s\",\"clen\":%zu,\"adlen\":%zu", f->name, clen, adlen);
+            vf_eq(DPROP, key, "decrypted plaintext", m, m_orig, mcap, "\"alg\":\"%s\",\"clen\":%zu,\"adlen\":%zu", f->name, clen, adlen);
             if (mlen != mcap) {
                 snprintf(key, sizeof(key), "dec:%s:mlen", f->name);
-                vf_violation("C02", key, "\"alg\":\"%s\",\"clen\":%zu,\"mlen\":%zu", f->name, clen, mlen);
+                vf_violation(DPROP, key, "\"alg\":\"%s\",\"clen\":%zu,\"mlen\":%zu", f->name, clen, mlen);
             }
             vf_out(m, mcap);
         }
     } else {
         if (res >= 0) {
             snprintf(key, sizeof(key), "dec:%s:forgery-accepted:%s", f->name, mut);
-            vf_violation("C02", key, "\"alg\":\"%s\",\"mutation\":\"%s\",\"position\":%zu,\"clen\":%zu,\"adlen\":%zu,\"key\":\"%s\",\"nonce\":\"%s\",\"c\":\"%s\"",
+            vf_violation(DPROP, key, "\"alg\":\"%s\",\"mutation\":\"%s\",\"position\":%zu,\"clen\":%zu,\"adlen\":%zu,\"key\":\"%s\",\"nonce\":\"%s\",\"c\":\"%s\"",
                          f->name, mut, pos, clen, adlen, vf_h(k, f->klen), vf_h(n, 16), vf_h(c, clen));
         } else if (f->kind != K_INC && clen >= 16) {
             size_t i;
             for (i = 0; i < mcap && m[i] == 0; ++i) ;
             if (i < mcap) {
                 snprintf(key, sizeof(key), "dec:%s:no-wipe", f->name);
-                vf_violation("C02", key, "\"alg\":\"%s\",\"mutation\":\"%s\",\"mlen\":%zu,\"first_nonzero\":%zu,\"byte\":%u", f->name, mut, mcap, i, m[i]);
+                vf_violation(DPROP, key, "\"alg\":\"%s\",\"mutation\":\"%s\",\"mlen\":%zu,\"first_nonzero\":%zu,\"byte\":%u", f->name, mut, mcap, i, m[i]);
             }
         }
         vf_count("forgeries_rejected", res < 0);
@@ -351,6 +359,7 @@ static void case_dec(rng_t *r, uint64_t idx, int thorough)
     const fam_t *f = &FAMS[idx % NFAM];
     uint64_t sub = idx / NFAM;
     int big = (sub % 5) == 4;
+    if (!fam_on(f)) return;
     size_t adlen, mlen, clen = 0, i;
     vec_t v;
     uint8_t *ct, *tmp;
@@ -531,7 +540,7 @@ int main(int argc, char **argv)
     vf_prop = "C01";
     vf_parse_args(argc, argv, &a);
     mode = a.arg ? a.arg : "enc";
-    if (strchr(mode, ':')) { static char mb[32]; snprintf(mb, sizeof(mb), "%s", mode); *strchr(mb, ':') = 0; fam_filter = strchr(mode, ':') + 1; mode = mb; }
+    if (strchr(mode, ':')) { static char mb[32]; snprintf(mb, sizeof(mb), "%s", mode); *strchr(mb, ':') = 0; fam_filter = strchr(mode, ':') + 1; mode = mb; if (!strcmp(fam_filter, "C07")) prop_override = "C07"; }
     if (!strcmp(mode, "enc")) {
         /* exhaustive small grid per family first: (4r+3)^2 <= 67^2 = 4489 sub-cases, then random */
         uint64_t grid = 35ull * 35ull, gridmax = 67ull * 67ull;
